@@ -937,3 +937,28 @@ VARIANTS = [
      "old": "    hierarchy = SuperClassHierarchy(superclasses)",
      "new": "    by_name = dict(superclasses)\n    hierarchy = SuperClassHierarchy(by_name)"},
 ]
+
+EXPLANATION += (
+    "  R1.27 (rules/c01_value_eq.py): abstract values are dict keys on the "
+    "way to the stub (output.Converter._value_to_parameter_types: `{val: "
+    "view}`), so values that compare equal collapse and only the first one's "
+    "type is emitted; their hashes are deliberately approximate "
+    "(Tuple.__hash__ digests the element values' full names).  For every "
+    "class of pytype/abstract/ with its own __eq__: a comparison of hashes "
+    "(hash(x), x.__hash__(), the memo attribute __hash__ writes) may decide "
+    "__eq__ only on a path guarded by an explicit predicate call on an "
+    "operand (today `self._is_recursive() or other._is_recursive()`), or as "
+    "a shortcut and-ed with a content comparison; there must be a content "
+    "path, and it (with the comparisons guarding it, and methods of the "
+    "class called on the operands) must read from both operands every "
+    "attribute __hash__ digests.  Blind spots of R1.27: an __eq__ that "
+    "re-implements the approximation inline (compares full names) without "
+    "touching the hash; whether the content comparison is deep enough; "
+    "classes outside pytype/abstract/ (pytd nodes: R12.2); transparent "
+    "proxies (a class defining __getattribute__, today LateAnnotation whose "
+    "__eq__ is `hash(self) == hash(other)` with the target's hash) are "
+    "listed but not decided.")
+ASSUMPTIONS += [
+    "R1.27: the first two parameters of __eq__ are the operands; an "
+    "attribute stored by __hash__ on self is its memo",
+]
